@@ -5,6 +5,7 @@ the harness decides when each running task finishes (succeeding or failing), whe
 own thread) and submits before / during / after flush; the done flags and the outcome of flush after
 every operation are compared inside Coq with Tasks.trace.  The real PushService is driven with a
 recording stub (sending thread, send count, conversion failures, send failures)."""
+import sys
 import threading
 import time
 
@@ -309,6 +310,61 @@ def two_handlers(ctx):
                      tag="two-handlers-pending")
 
 
+def through_the_agent(ctx):
+    """The same through the agent's own wiring: snapshots handed to `Deep.push` are what `Deep.shutdown()` drains, and what it
+    refuses afterwards (whatever task handler the push service was given, it must be one that shutdown waits for)."""
+    import deep.api.deep as api
+    import deep.push.push_service as ps
+    import deep.push as push_mod
+    from deep.config.config_service import ConfigService
+    from deep.config.tracepoint_config import TracepointConfigService
+    sent = []
+
+    class Stub:
+        def __init__(self, channel):
+            pass
+
+        def send(self, converted, metadata=None):
+            time.sleep(0.05)
+            sent.append(converted["id"])
+    saved = ps.SnapshotServiceStub, push_mod.convert_snapshot, api.load_plugins
+    ps.SnapshotServiceStub = Stub
+    push_mod.convert_snapshot = lambda s_: dict(id=s_.id)
+    api.load_plugins = lambda config, custom=None: []
+    old_sys, old_thr = sys.gettrace(), threading.gettrace()
+    try:
+        for n in (1, 5):
+            cfg = ConfigService({"APP_ROOT": "/app", "NO_TRACE": True, "SERVICE_URL": "localhost:1"}, tracepoints=TracepointConfigService())
+            d = api.Deep(cfg)
+            d.grpc.start = lambda: None
+            d.grpc.metadata = lambda: []
+            d.poll = type("Poll", (), {"start": lambda self: None, "shutdown": lambda self: None})()
+            d.start()
+            del sent[:]
+            for i in range(n):
+                d.push.push_snapshot(type("S", (), {"id": i})())
+            d.shutdown()
+            at_return = sorted(sent)
+            late = None
+            try:
+                d.push.push_snapshot(type("S", (), {"id": 99})())
+                late = "accepted"
+            except BaseException as e:
+                late = type(e).__name__
+            time.sleep(0.2)
+            j = dict(handed_over=n, sent_when_shutdown_returned=at_return, hand_over_after_shutdown=late)
+            ctx.case(j, nontrivial=True, bucket="through-the-agent")
+            if at_return != list(range(n)):
+                ctx.fail("Deep.shutdown() returned with %r of %d accepted snapshots sent (the push service's tasks are not the ones "
+                         "shutdown waits for)" % (at_return, n), j, kind="schedule", tag="agent-shutdown-does-not-drain")
+            if late == "accepted":
+                ctx.fail("a snapshot handed to Deep.push after shutdown was accepted silently", j, kind="schedule", tag="agent-accepts-after-shutdown")
+    finally:
+        ps.SnapshotServiceStub, push_mod.convert_snapshot, api.load_plugins = saved
+        sys.settrace(old_sys)
+        threading.settrace(old_thr)
+
+
 def run(ctx):
     import logging
     from ..lib.quiet import quiet_logging
@@ -341,6 +397,7 @@ def run(ctx):
     pool_refuses(ctx)
     two_flushes(ctx)
     two_handlers(ctx)
+    through_the_agent(ctx)
 
 
 def replay(ctx, data):
